@@ -235,6 +235,14 @@ impl MT101 {
             });
         }
 
+        // The repetitive sequence is mandatory: at least one occurrence
+        // (left-over content is reported by the completeness check that follows)
+        if transactions.is_empty() && parser.is_complete() {
+            return Err(crate::errors::ParseError::InvalidFormat {
+                message: "MT101: At least one transaction (sequence B, field 21) is required".to_string(),
+            });
+        }
+
         // Verify all content is consumed
         verify_parser_complete(&parser)?;
 
